@@ -4,6 +4,7 @@ import Comdex.Model.AmmKeeper
 import Comdex.Model.AmmDust
 import Comdex.Model.AmmRanged
 import Comdex.Model.AmmOrders
+import Comdex.Model.AmmMultiView
 /-! Driver for the batch-matching model (property C05).
 
 Lines (tab separated, after the sequence number):
@@ -19,6 +20,10 @@ Lines (tab separated, after the sequence number):
         real MatchableAmount(order, p) ; FillOrder(order, amt, p)
   amm.op first <prec> <price|none> <ok|nomatch|panic> <qcd|-> <results>
         real NewOrderBook(orders) ; FindMatchPrice(ob.MakeView(), prec) ; MatchAtSinglePrice(price)   (keeper's first batch)
+  amm.pv <poolId> basic <rx> <ry> | amm.pv <poolId> ranged <rx> <ry> <min> <max>      a pool of the sequence's pair
+  amm.op firstp <prec> <price|none> <ok|nomatch|panic> <qcd|-> <poolOrders> <results>
+        real FindMatchPrice(MultipleOrderViews{ob.MakeView(), pools…}, prec); per pool a buy / sell order at that price
+        (`id:poolId:dir:price:amount:offer`); MatchAtSinglePrice(price)       (keeper's first batch WITH pools)
   amm.fmp <prec> <price|none>                       real FindMatchPrice(NewOrderBook(orders).MakeView(), prec)
   amm.fmpx <prec> <price|none>                      the same at a precision the order prices are not ticks of (compared, not monitored)
   amm.view <price> <hb|none> <ls|none> <buyOver> <sellUnder>
@@ -69,6 +74,7 @@ structure St where
   kratio : Int := 100000000000000000          -- MaxPriceLimitRatio (raw)
   kticks : Nat := 10                          -- MaxNumMarketMakingOrderTicks
   mmIndex : List (Nat × List Nat) := []
+  pools : List (Nat × PoolV) := []            -- the pools of a first-batch-with-pools case (amm.pv lines)
 
 def init : St := {}
 
@@ -250,6 +256,49 @@ def handle (st : St) (seq : String) (f : List String) : St × List String :=
           finish st seq s!"{mf}\tok\t{q}" (some (project st.orders b'.orders)) s!"{fmp}\t{outcome}\t{qcd}" outcome qcd res (lossless := ll)
             (dustAt := some (b.orders, pr, pr))
       (st', out ++ pm)
+  | "amm.pv" :: pid :: kind :: rest =>
+    match parseNat? pid, kind, rest.mapM parseInt? with
+    | some pid, "basic", some [rx, ry] => ({ st with pools := st.pools ++ [(pid, PoolV.basic ⟨rx, ry⟩)] }, [])
+    | some pid, "ranged", some [rx, ry, mn, mx] =>
+      match RPool.new rx ry mn mx with
+      | some pl => ({ st with pools := st.pools ++ [(pid, PoolV.ranged pl)] }, [])
+      | none => (st, [s!"DIFF\t{seq}\tpv: the model's NewRangedPool panics"])
+    | _, _, _ => (st, [s!"BAD\t{seq}\tpv"])
+  | ["amm.op", "firstp", prec, fmp, outcome, qcd, pcreate, res] =>
+    match parseNat? prec with
+    | none => (st, [s!"BAD\t{seq}\tfirstp"])
+    | some prec =>
+      let firstId := st.orders.length
+      let (mp, pos, r) := matchFirstBatchPools st.orders st.pools prec firstId
+      let mf := match mp with | none => "none" | some a => toString a
+      -- the orders the pools placed: model against code
+      let mcreate := ",".intercalate (pos.map fun (o : Order) =>
+        s!"{o.id}:{o.oid}:{if o.dir = Dir.buy then 1 else 2}:{o.price}:{o.amount}:{o.offer}")
+      let d0 := if mcreate = pcreate then [] else [s!"DIFF\t{seq}\tpool orders model={mcreate}\timpl={pcreate}"]
+      -- continue with the REAL pool orders
+      let realPos : Option (List Order) := if pcreate = "" then some [] else
+        (pcreate.splitOn ",").mapM fun x => match (x.splitOn ":").mapM parseInt? with
+          | some [id, pid, dir, price, amt, offer] =>
+            some { id := id.toNat, kind := 1, oid := pid.toNat, dir := if dir = 1 then Dir.buy else Dir.sell, price := price,
+                   amount := amt, offer := offer, opn := amt, paid := 0, received := 0, batchId := 0 }
+          | _ => none
+      match realPos with
+      | none => (st, [s!"BAD\t{seq}\tfirstp pool orders"])
+      | some rpos =>
+        let st1 := { st with orders := st.orders ++ rpos }
+        let b := rpos.foldl addOrder (newBook st.orders)
+        let pr := mp.getD 0
+        let pm := match mp with
+          | none => []
+          | some a => if decide (0 < a) && isTick a prec then [] else [s!"MON\t{seq}\tfound_price_in_spread"]
+        let (st', out) := match mp, r with
+          | some _, .ok b' q =>
+            let ll := match findMatchableAmount b pr with | none => true | some x => ticksLossless b.sells x pr
+            finish st1 seq s!"{mf}\tok\t{q}" (some (project st1.orders b'.orders)) s!"{fmp}\t{outcome}\t{qcd}" outcome qcd res (lossless := ll)
+              (dustAt := some (b.orders, pr, pr))
+          | _, .panic => finish st1 seq s!"{mf}\tpanic\t-" none s!"{fmp}\t{outcome}\t{qcd}" outcome qcd res
+          | _, _ => finish st1 seq s!"{mf}\tnomatch\t-" none s!"{fmp}\t{outcome}\t{qcd}" outcome qcd res
+        (st', d0 ++ out ++ pm)
   | ["amm.fmp", prec, r] =>
     match parseNat? prec with
     | none => (st, [s!"BAD\t{seq}\tfmp"])
